@@ -139,6 +139,21 @@ def main(argv):
     from . import findings
     mod = importlib.import_module("vf.harness." + prop)
     insts = list(mod.instances(tier))
+    if tier == "quick":
+        # cheap obligations of the thorough tier run in the quick tier as well (list written by tools/mkpromote.py from
+        # the last complete thorough run)
+        try:
+            with open(os.path.join(VERIF, "vf", "promote.json")) as f:
+                wanted = set(json.load(f).get(prop, []))
+        except Exception:
+            wanted = set()
+        if wanted:
+            have = set(i.ident for i in insts)
+            for i in mod.instances("thorough"):
+                if i.ident in wanted and i.ident not in have:
+                    i.budget = min(i.budget, 120.0)
+                    insts.append(i)
+                    have.add(i.ident)
     # the budgets in the harness modules are about twice the CPU time measured on the development machine; they are caps
     # (an instance ends when its tree is exhausted), so a slower or busier machine gets head-room instead of inconclusives
     scale = float(os.environ.get("VERIF_BUDGET_SCALE", "2.5" if tier == "quick" else "1.5"))
